@@ -11,6 +11,7 @@ import (
 	"github.com/Ptt-official-app/go-pttbbs/cmbbs/path"
 	"github.com/Ptt-official-app/go-pttbbs/ptttype"
 	"github.com/Ptt-official-app/go-pttbbs/types"
+	"github.com/Ptt-official-app/go-pttbbs/verifhook"
 
 	log "github.com/sirupsen/logrus"
 )
@@ -284,6 +285,7 @@ func SetupNewUser(user *ptttype.UserecRaw) error {
 	if uid != 0 {
 		return ptttype.ErrUserIDAlreadyExists
 	}
+	verifhook.Point("reg.afterCheck")
 
 	/* Lazy method : 先找尋已經清除的過期帳號 */
 	uid, err = cache.DoSearchUserRaw(&ptttype.EMPTY_USER_ID, nil)
@@ -310,6 +312,8 @@ func SetupNewUser(user *ptttype.UserecRaw) error {
 		return err
 	}
 	defer func() { _ = cmbbs.PasswdUnlock() }()
+	defer verifhook.Point("reg.beforeUnlock")
+	verifhook.Point("reg.afterLock")
 
 	// check again under the lock: another registration of the same id
 	// may have completed since the check above.
